@@ -395,6 +395,14 @@ func runC05(r *Run) {
 		{"empty-map-leaf", map[string]interface{}{"m": map[string]interface{}{}}, "m.zz", "table"},
 		{"nil-map-leaf", S1{}, "M.zz", "table"},
 		{"intkey-map-leaf", S3{MI: map[int]string{1: "a"}}, "MI.7", "table"},
+		{"map-under-renamed-field", S7{Labels: map[string]string{"a": "b"}}, "labels.zz", "table"},
+		{"named-map-under-renamed-field", S7{Meta: NStrMap{"a": "b"}}, "meta.zz", "table"},
+		{"map-under-renamed-field-in-list", map[string]interface{}{"l": []S7{{Labels: map[string]string{"a": "b"}}}}, "l.0.labels.zz", "table"},
+		{"map-in-list-under-renamed-field", S7{Items: []S1{{M: map[string]int{"k": 1}}}}, "items.0.M.zz", "table"},
+		{"alt:map-under-alt-renamed-field", S7{Labels: map[string]string{"a": "b"}}, "lab.zz", "table"},
+		{"alt:map-under-alt-tag", S1{M: map[string]int{"k": 1}}, "M.zz", "table"},
+		{"hook:map-inside-wrapper", S7{W: Wrap{map[string]interface{}{"k": 1}}}, "W.zz", "table"},
+		{"hook:map-below-wrapper", S7{W: Wrap{map[string]interface{}{"m": map[string]interface{}{"k": 1}}}}, "W.m.zz", "table"},
 		{"top-level", map[string]interface{}{"m": inner}, "zz", "error"},
 		{"intermediate", map[string]interface{}{"m": inner}, "zz.k", "error"},
 		{"intermediate-deep", map[string]interface{}{"m": inner}, "m.zz.k", "error"},
@@ -434,6 +442,12 @@ func runC05(r *Run) {
 			for _, u := range unknowns {
 				e := fmt.Sprintf(op.f, dc.sel)
 				c := evalCase{expr: e, d: dc.d, tag: "bexpr", unkSet: u.set, unk: u.v}
+				if strings.HasPrefix(dc.name, "alt:") {
+					c.tag = "alt"
+				}
+				if strings.HasPrefix(dc.name, "hook:") {
+					c.hook = 2
+				}
 				if !c.parse() {
 					r.Count("generator:unparseable")
 					continue
@@ -521,6 +535,8 @@ func runC06(r *Run) {
 	p3 := []int{1, 2, 3}
 	colls := []coll{
 		{"ints", map[string]interface{}{"l": []int{1, 2, 3}, "x": 9, "i": 7}, "l", []string{"0", "1", "2"}, false},
+		{"ints-12", map[string]interface{}{"l": []int{2, 2, 2, 2, 2, 2, 2, 2, 2, 2, 1, 2}, "x": 9}, "l", []string{"0", "1", "2", "3", "4", "5", "6", "7", "8", "9", "10", "11"}, false},
+		{"structs-11", S2{LS: []S1{{A: 2}, {A: 2}, {A: 2}, {A: 2}, {A: 2}, {A: 2}, {A: 2}, {A: 2}, {A: 2}, {A: 2}, {A: 1, B: "a"}}}, "LS", []string{"0", "1", "2", "3", "4", "5", "6", "7", "8", "9", "10"}, false},
 		{"ints-empty", map[string]interface{}{"l": []int{}}, "l", []string{}, false},
 		{"ints-nil", S1{}, "L", []string{}, false},
 		{"array", S3{Arr: [2]int{1, 5}}, "Arr", []string{"0", "1"}, false},
@@ -645,6 +661,16 @@ func runC06(r *Run) {
 	if r.Tier == "thorough" {
 		n = 100000
 	}
+	for i := 0; i < n/2; i++ {
+		rng = NewRng(mix(r.Seed, strHash("C06nested"), uint64(i)))
+		d, e := genNestedQuant()
+		c := evalCase{expr: e, d: d, tag: "bexpr"}
+		if !c.parse() {
+			r.Count("generator:unparseable")
+			continue
+		}
+		addEval(r, &c, "nested-quantifiers")
+	}
 	made := 0
 	for i := 0; made < n; i++ {
 		rng = NewRng(mix(r.Seed, strHash("C06rand"), uint64(i)))
@@ -727,7 +753,40 @@ func spellings(parts []string) []string {
 	return out
 }
 
+// boundVariableSpellings: inside a quantifier body the bound name itself may be spelled bare or as a JSON Pointer.
+func c07BoundVariables(r *Run) {
+	d := map[string]interface{}{"M": map[string]interface{}{"tier": 1, "env": map[string]interface{}{"k": "tier"}}, "L": []interface{}{"a", "b"}, "k": "tier", "i": 0, "Meta": map[string]string{"tier": "x"}}
+	tpls := []struct{ f, v string }{
+		{"any M as %[1]s { %[2]s == tier }", "k"}, {"all M as %[1]s, _ { %[2]s != zz }", "k"}, {"any M as %[1]s, v { %[2]s == env and v is not empty }", "k"}, {"any L as %[1]s, v { %[2]s == 1 }", "i"},
+		{"all Meta as %[1]s { %[2]s == tier }", "k"}, {"any L as %[1]s { %[2]s == b }", "v"}, {"any M as _, %[1]s { %[2]s.k == tier }", "v"}, {"any L as %[1]s, _ { %[2]s == 0 }", "idx"},
+	}
+	for _, t := range tpls {
+		var first string
+		for k, sp := range []string{t.v, `"/` + t.v + `"`} {
+			e := fmt.Sprintf(t.f, t.v, sp)
+			if strings.Contains(t.f, ".k ==") && k == 1 {
+				e = fmt.Sprintf(strings.Replace(t.f, "%[2]s.k", "%[2]s", 1), t.v, `"/`+t.v+`/k"`)
+			}
+			c := evalCase{expr: e, d: d, tag: "bexpr"}
+			if !c.parse() {
+				r.Violate("spelling-does-not-parse", e, map[string]interface{}{"expression": e}, "")
+				continue
+			}
+			o := c.obs()
+			r.Evaluations++
+			r.Seen("bound|" + t.f + "|" + fmt.Sprint(k))
+			if k == 0 {
+				first = o
+			} else if o != first {
+				r.Violate("spelling-outcome", "bound|"+t.f, c.desc(), "bare spelling of the bound name "+first+", JSON-Pointer spelling "+o)
+			}
+			r.Model(c.cmd(), o, c.desc())
+		}
+	}
+}
+
 func runC07(r *Run) {
+	c07BoundVariables(r)
 	r.Rule = "paths taken from random data whose parts are expressible in at least two spellings (dotted, .digits, [\"...\"], [`...`], JSON Pointer with ~0/~1, mixed within one selector) x operator templates (match, quantified collection, inside a quantifier body) x data; predicate on the implementation: the parser yields the same Path for every spelling and Evaluate the same outcome; exact (case-sensitive, untrimmed) matching of parts against keys and field names; all spellings also compared with the model; distinct = (number of parts, spelling set, template, outcome)"
 	n := 1200
 	if r.Tier == "thorough" {
@@ -741,7 +800,7 @@ func runC07(r *Run) {
 		var parts []string
 		if rng.Pct(50) {
 			// documents with awkward keys
-			keys := []string{"a", "b c", "x/y", "t~u", "0", "12", "K", "k", " k", "é", "a.b", "-", "_u"}
+			keys := []string{"a", "b c", "x/y", "t~u", "0", "12", "K", "k", " k", "é", "a.b", "-", "_u", "a~1b", "a~0b", "~", "~1", "~0~1", "a~01", "/", "a/~b"}
 			leaf := pick(rng, []interface{}{1, "a", []interface{}{1, "a"}, map[string]interface{}{"z": 1}, nil, ""})
 			k1, k2, k3 := pick(rng, keys), pick(rng, keys), pick(rng, keys)
 			d = map[string]interface{}{"m": map[string]interface{}{k1: map[string]interface{}{k2: leaf, k3: []interface{}{leaf, 1}}}, "l": []interface{}{1}}
@@ -850,6 +909,18 @@ func hexDecode(s string) ([]byte, error) {
 // The visible part of a value depends on rng only, the hidden part on the hidden seed only.
 var c08Tag = "bexpr"
 
+// hidden contents and the literals of the hidden-field family come from one small pool, so that a selector that does
+// reach hidden content distinguishes the two data of a pair about half the time
+var hidPool = []string{"h1", "h2", ""}
+
+func hpick(h *Rng, field string) string {
+	g := hidRng(h, field)
+	if g == h {
+		return pick(g, hidPool)
+	}
+	return pick(g, strPool)
+}
+
 func hidRng(h *Rng, field string) *Rng {
 	hiddenUnder := map[string]string{"Sec": "bexpr", "SecM": "bexpr", "SecL": "bexpr", "SecS": "bexpr", "Ren": "alt", "priv": "*", "pm": "*", "ps": "*"}
 	if t := hiddenUnder[field]; t == "*" || t == c08Tag {
@@ -860,18 +931,18 @@ func hidRng(h *Rng, field string) *Rng {
 
 func genS5b(hiddenSeed int) S5b {
 	h := NewRng(uint64(hiddenSeed))
-	return S5b{V: rng.Intn(3), Name: pick(rng, strPool), Sec: pick(hidRng(h, "Sec"), strPool), SecL: []int{hidRng(h, "SecL").Intn(5)}, priv: pick(h, strPool), Ren: pick(hidRng(h, "Ren"), strPool)}
+	return S5b{V: rng.Intn(3), Name: pick(rng, strPool), Sec: hpick(h, "Sec"), SecL: []int{hidRng(h, "SecL").Intn(3)}, priv: pick(h, hidPool), Ren: hpick(h, "Ren")}
 }
 
 func genS5(hiddenSeed int) S5 {
 	h := NewRng(uint64(hiddenSeed) * 77)
-	s := S5{V: rng.Intn(3), Name: pick(rng, strPool), Ren: pick(hidRng(h, "Ren"), strPool)}
-	s.Sec = pick(hidRng(h, "Sec"), strPool)
-	s.SecM = map[string]string{pick(hidRng(h, "SecM"), []string{"k", "a"}): pick(hidRng(h, "SecM"), strPool)}
-	s.SecL = []int{hidRng(h, "SecL").Intn(9), hidRng(h, "SecL").Intn(9)}
-	s.priv = pick(h, strPool)
+	s := S5{V: rng.Intn(3), Name: pick(rng, strPool), Ren: hpick(h, "Ren")}
+	s.Sec = hpick(h, "Sec")
+	s.SecM = map[string]string{pick(hidRng(h, "SecM"), []string{"k", "a"}): hpick(h, "SecM")}
+	s.SecL = []int{hidRng(h, "SecL").Intn(3), hidRng(h, "SecL").Intn(3)}
+	s.priv = pick(h, hidPool)
 	s.pm = map[string]int{"p": h.Intn(9)}
-	s.SecS = S5b{V: hidRng(h, "SecS").Intn(9), Name: pick(hidRng(h, "SecS"), strPool)}
+	s.SecS = S5b{V: hidRng(h, "SecS").Intn(3), Name: hpick(h, "SecS")}
 	s.ps = S5b{V: h.Intn(9)}
 	if rng.Pct(70) {
 		b := genS5b(hiddenSeed + 1)
@@ -895,7 +966,7 @@ func runC08(r *Run) {
 		n = 80000
 	}
 	hiddenSels := []string{"Sec", "priv", "SecM.k", "SecL.0", "In.Sec", "In.priv", "Kids.0.Sec", "ByK.a.Sec", "SecS.V", "ps.V", "pm.p", "secl.0", "Ren", "renamed", "In.Ren", "In.renamed", "Kids.0.SecL", "SecL", "SecM"}
-	forms := []string{"%s == a", "%s != a", "%s is empty", "%s is not empty", "1 in %s", "%s matches `.`", "any %s as x { x == 1 }", "all %s as k, v { v == 1 }", "any Kids as k { k.%s == a }", "any ByK as _, v { v.%s == a or v.V == 1 }"}
+	forms := []string{"%s == h1", "%s != h2", "%s is empty", "%s is not empty", "1 in %s", "%s matches `1`", "any %s as x { x == 1 }", "all %s as k, v { v == h1 }", "any Kids as k { k.%s == h1 }", "any ByK as _, v { v.%s == h2 or v.V == 7 }", "all Kids as k { k.%s is empty }", "any Kids as k { h1 in k.%s }"}
 	for i := 0; i < n; i++ {
 		vis := mix(r.Seed, strHash("C08"), uint64(i))
 		c08Tag = "bexpr"
@@ -996,6 +1067,35 @@ func runC08(r *Run) {
 		}
 		if i%200 == 0 {
 			r.Sample(map[string]interface{}{"expression": e, "tag": tag, "outcome_a": o1, "outcome_b": o2})
+		}
+	}
+	// enclosing structs whose visible fields are all zero and whose hidden fields differ (operators applied to the struct itself)
+	za := S5{priv: "h1", Sec: "h1", In: &S5b{priv: "h1", Sec: "h2"}, Kids: []S5b{{Sec: "h1"}, {}}, ByK: map[string]S5b{"a": {priv: "x"}}}
+	zb := S5{In: &S5b{}, Kids: []S5b{{}, {}}, ByK: map[string]S5b{"a": {}}}
+	for _, e := range []string{"In is empty", "In is not empty", "any Kids as k { k is empty }", "all Kids as k { k is empty }", "all ByK as _, v { v is not empty }", "In == 1", "1 in In", "In matches `a`", "Kids.0 is empty", "ByK.a is empty"} {
+		c1 := evalCase{expr: e, d: za, tag: "bexpr"}
+		if !c1.parse() {
+			continue
+		}
+		c2 := c1
+		c2.d = zb
+		o1, o2 := c1.obs(), c2.obs()
+		r.Evaluations += 2
+		r.Seen("zero-visible|" + e)
+		if o1 != o2 {
+			m := c1.desc()
+			m["datum_b"] = describe(zb)
+			r.Violate("hidden-field-observable", "zero-visible|"+e, m, o1+" vs "+o2)
+		}
+		r.Model(c1.cmd(), o1, c1.desc())
+		r.Model(c2.cmd(), o2, c2.desc())
+		if flt, err := bexpr.CreateFilter(strings.Replace(strings.Replace(e, "In ", "X ", 1), "In.", "X.", 1)); err == nil && flt != nil {
+			type holder struct{ X S5b }
+			la := []holder{{S5b{priv: "h1"}}, {S5b{}}, {S5b{Sec: "h2"}}}
+			lb := []holder{{S5b{}}, {S5b{}}, {S5b{}}}
+			if k1, k2 := filterKept(flt, la), filterKept(flt, lb); k1 != k2 {
+				r.Violate("hidden-field-changes-filter", "zero-visible|"+e, map[string]interface{}{"expression": e, "list_a": describe(la), "list_b": describe(lb)}, k1+" vs "+k2)
+			}
 		}
 	}
 	// a hidden field's content is never the value a selector resolves to; a renamed field only under its tag
